@@ -3,7 +3,7 @@ import StepModel.GenDeterm
 
   rule                                              -> R legacy | R literalOnly        (rule regenerated from the tree)
   bound <nr> <var> <cname> <aggr> <shape> <hex text> -> B <hex of the predicted line>  |  B AMBIENT
-        shape ∈ lit (text = decimal value) | inf | funcall | ident | op | runtime (text = attribute name)
+        shape ∈ lit (text = decimal value) | neglit (text = decimal value of the literal under the minus) | inf | funcall | ident | op | runtime (text = attribute name)
         AMBIENT: under the current rule the line depends on an address (no prediction possible)
   order <key> <key> …                               -> O <keys in DICTdo order>
 -/
@@ -36,12 +36,14 @@ def mkBound (shape text : String) : Option BoundExpr :=
   | "funcall" => some (.funcall text)
   | "ident" => some (.ident 0 text)
   | "op" => some (.op text)
+  | "neglit" => text.toInt?.map .negLit
   | "runtime" => some (.runtime text)
   | _ => none
 
 def handle (line : String) : String :=
   match (line.trimAscii.toString.splitOn " ").filter (· ≠ "") with
-  | ["rule"] => match currentRule with | .legacy => "R legacy" | .literalOnly => "R literalOnly"
+  | ["rule"] => match currentRule with
+    | .legacy => "R legacy" | .literalOnly => "R literalOnly" | .literalOrNegated => "R literalOrNegated"
   | ["bound", nr, var, cname, aggr, shape, htext] =>
     match nr.toNat?, (unhex htext).bind (mkBound shape) with
     | some nr, some b =>
